@@ -72,6 +72,24 @@ class Executor:
             pm = self._build(base)
             pm.comments = text
             return pm
+        if kind == "process" and item.get("ic_none"):
+            base = dict(item)
+            base.pop("ic_none")
+            pm = self._build(base)
+            pm.initial_conditions = None
+            return pm
+        if kind == "process" and item.get("cond_edit"):
+            base = dict(item)
+            ed = base.pop("cond_edit")
+            pm = self._build(base)
+            ic = pm.initial_conditions
+            for key, attr_name in (("pt", "permeate_temperature"), ("pp", "permeate_pressure"), ("T", "initial_feed_temperature"),
+                                   ("amount", "initial_feed_amount"), ("area", "membrane_area")):
+                if key in ed:
+                    setattr(ic, attr_name, ed[key])
+            if "comp" in ed:
+                ic.initial_feed_composition = build.composition(ed["comp"])
+            return pm
         if kind == "process" and item.get("reexpress"):
             base = dict(item)
             u = base.pop("reexpress")
